@@ -1,6 +1,6 @@
 (* C14 — property theorems only: each restates the full statement and is closed by the lemma proved in Proofs/. *)
 From Coq Require Import ZArith List Bool.
-From NPS Require Import ListAux PySlice NumpySem Scatter BuildIdx XorBroadcast View Index Assign Reduce Scan RaOps Heap Hash HashRun BitArr RLE RLEOps RLE2d DataClass RowsSpec AssignSpec MapSpec Denote RoundTrip RLEProof RLEPer CanonProof ToArray.
+From NPS Require Import ListAux PySlice NumpySem Scatter BuildIdx XorBroadcast View Index Assign Reduce Scan RaOps Heap Hash HashRun BitArr RLE RLEOps RLE2d DataClass RowsSpec AssignSpec MapSpec Denote RoundTrip RLEProof RLEPer CanonProof ToArray StepProof StartEnd BinaryProof RLConcat.
 Import ListNotations.
 Open Scope Z_scope.
 
@@ -59,3 +59,48 @@ Theorem C14_join_runs_canonical :
        length ev = S (length vs) -> no_adj A eqb (snd (join_runs A eqb ev vs)).
 Proof. exact join_runs_canonical. Qed.
 Print Assumptions C14_join_runs_canonical.
+
+Theorem C14_start_to_end_shape :
+  forall (A : Type) (ev : list Z) (vs : list A) (e0 s e : Z),
+       length ev = length vs ->
+       strictly_increasing (e0 :: ev) ->
+       e0 <= s -> s < e -> e <= last (e0 :: ev) 0 -> shape_ok A (start_to_end A (e0 :: ev, vs) s e) (e - s).
+Proof. exact start_to_end_shape. Qed.
+Print Assumptions C14_start_to_end_shape.
+
+Theorem C14_step_subset_pos :
+  forall (A : Type) (d : A) (eqb : A -> A -> bool),
+       (forall x y : A, eqb x y = true -> x = y) ->
+       forall k : Z,
+       1 <= k ->
+       forall (ls : list Z) (vs : list A),
+       canon A ls vs ->
+       decode A (step_subset A eqb (evs ls, vs) k) =
+       map (fun q : Z => dense A d vs ls (q * k)) (ap 0 (cdiv k (zsum ls)) 1) /\
+       no_adj A eqb (snd (step_subset A eqb (evs ls, vs) k)).
+Proof. exact step_subset_pos. Qed.
+Print Assumptions C14_step_subset_pos.
+
+Theorem C14_apply_binary_correct :
+  forall (A B C : Type) (da : A) (db : B) (ceqb : C -> C -> bool),
+       (forall x y : C, ceqb x y = true -> x = y) ->
+       forall (f : A -> B -> C) (lsA lsB : list Z) (vA : list A) (vB : list B),
+       canon A lsA vA ->
+       canon B lsB vB ->
+       zsum lsA = zsum lsB ->
+       lsA <> [] ->
+       lsB <> [] ->
+       exists r : rla C,
+         apply_binary A B C da db ceqb f (evs lsA, vA) (evs lsB, vB) = Ok r /\
+         decode C r = map2 f (spec_broadcast A vA lsA) (spec_broadcast B vB lsB) /\ no_adj C ceqb (snd r).
+Proof. exact apply_binary_correct. Qed.
+Print Assumptions C14_apply_binary_correct.
+
+Theorem C14_rl_concat_correct :
+  forall (A : Type) (ps : list (list Z * list A)),
+       Forall (fun p : list Z * list A => length (snd p) = length (fst p)) ps ->
+       rl_concat (map (of_runs1 A) ps) = (evs (concat (map fst ps)), concat (map snd ps)) /\
+       decode A (rl_concat (map (of_runs1 A) ps)) =
+       concat (map (fun p : list Z * list A => decode A (of_runs1 A p)) ps).
+Proof. exact rl_concat_correct. Qed.
+Print Assumptions C14_rl_concat_correct.
